@@ -62,6 +62,9 @@ func (core *JApiCore) findPaste(macroName string, d *directive.Directive) *jerr.
 		case macroName:
 			return d.KeywordError("recursion is prohibited")
 		}
+		if _, ok := core.macro[name]; !ok {
+			return d.KeywordError("macro not found")
+		}
 		// A macro pasting another macro which (through any number of further macros)
 		// pastes the first one again is a recursion too.
 		if core.pastesMacro(name, macroName, map[string]struct{}{}) {
